@@ -237,8 +237,12 @@ def random_graph(rnd, n):
     implicit = [x for x in names if kind[x] == "const" and x in used and ["n", x] not in outs and rnd.random() < 0.4]
     wv = [x for x in wv if x not in implicit]        # an implicit constant has a private auto-name: it cannot be named in with_values
     meta_false = [x for x in names if kind[x] in ("op", "sim", "sum") and x not in meta and rnd.random() < 0.25]
+    # edit history with unchanged meaning: some nodes are replaced by an equal fresh node (`become`), which moves them behind
+    # their children in the insertion order of the source net
+    re = [x for x in names if x not in implicit and rnd.random() < 0.25] if rnd.random() < 0.5 else []
+    rnd.shuffle(re)
     return dict(nodes=names, kind=kind, pos=pos, named=named, obs=obs, meta=meta, meta_false=meta_false, outs=outs, wv=wv, implicit=implicit,
-                bs=rnd.choice([1, 2, 5]), seed=rnd.randint(0, 10 ** 6))
+                bs=rnd.choice([1, 2, 5]), seed=rnd.randint(0, 10 ** 6), reinsert=re)
 
 
 def emitted_graphs(ctx, names, fan, named, wv, meta, tw):
